@@ -126,6 +126,43 @@ impl<'buf> Session<'buf> {
     }
 }
 
+#[cfg(feature = "verif-hooks")]
+impl Session<'_> {
+    /// Snapshot of the semantic session state (verification hook).
+    pub fn verif_state(&self) -> crate::verif::VerifState {
+        let mut state = crate::verif::VerifState::default();
+        self.data.outbound.verif_snapshot(&mut state);
+        state.next_packet_id = self.data.verif_packet_id();
+        state.generation = self.data.generation();
+        state.session_present = self.data.session_present;
+        for id in &self.data.pending_server_packet_ids {
+            let _ = state.inbound_qos2.push(*id);
+        }
+        state.session_resumed = self.runtime.session_resumed;
+        state.send_quota = self.runtime.send_quota;
+        state.max_send_quota = self.runtime.max_send_quota;
+        state.maximum_packet_size = self.runtime.maximum_packet_size;
+        state.max_qos = self.runtime.max_qos.map(|qos| qos as u8);
+        state.keepalive_ms = self.runtime.keepalive_interval.as_millis();
+        state.next_ping_us = self.runtime.next_ping.map(|at| at.as_micros());
+        state.ping_timeout_us = self.runtime.ping_timeout.map(|at| at.as_micros());
+        let (read_bytes, packet_length) = self.packet_reader.verif_progress();
+        state.reader_read_bytes = read_bytes;
+        state.reader_packet_length = packet_length;
+        state
+    }
+
+    /// The transmit arena as it currently is (verification hook).
+    pub fn verif_arena(&self) -> &[u8] {
+        self.data.outbound.verif_arena()
+    }
+
+    /// Move the packet identifier counter (verification hook).
+    pub fn verif_set_next_packet_id(&mut self, packet_id: core::num::NonZeroU16) {
+        self.data.verif_set_packet_id(packet_id);
+    }
+}
+
 /// A live MQTT connection over a transport `IO`, returned by
 /// [`Session::connect`](Session::connect).
 ///
